@@ -118,6 +118,25 @@ func runC10(p *engine.Prog, r *engine.Report) {
 			if nUpd == 0 {
 				probs = append(probs, "the new status map is never filled")
 			}
+			{
+				nNew, nKept := 0, 0
+				for _, rr := range *mm.Referrers() {
+					if mu, ok := rr.(*ssa.MapUpdate); ok && mu.Map == ssa.Value(mm) {
+						switch mu.Value.(type) {
+						case *ssa.Call:
+							nNew++
+						case *ssa.Lookup:
+							nKept++
+						}
+					}
+				}
+				if nNew == 0 {
+					probs = append(probs, "newly assigned targets get no status entry")
+				}
+				if nKept == 0 {
+					probs = append(probs, "targets kept across the update do not keep their status entry")
+				}
+			}
 			// the installation happens after the loop (dominated by all updates' loop exit): the store must not be inside a loop
 			if loopOf(fi, st.Block()) != nil {
 				probs = append(probs, "the status map is installed inside the loop")
@@ -257,6 +276,18 @@ func runC10(p *engine.Prog, r *engine.Report) {
 			r.Check(ok1, "R10.4-idle-since", fmt.Sprintf("set#%d in %s", nI, engine.FuncName(fn)), "IdleAt = <time> at "+engine.FuncName(fn)+" ("+p.Rel(st.Pos())+")",
 				"only when the status map is empty and no idle-since time is recorded yet (the instant is kept across further empty updates)", "path condition: "+strings.Join(nonStructural(have), " ∧ "))
 		}
+	}
+	{
+		nSet, nClear := 0, 0
+		for _, o := range r.Obligations {
+			if strings.Contains(o.Key, "R10.4-idle-since:set#") {
+				nSet++
+			}
+			if strings.Contains(o.Key, "R10.4-idle-since:clear#") {
+				nClear++
+			}
+		}
+		r.Check(nSet >= 1 && nClear >= 1, "R10.4-idle-since", "idle-since is both set and cleared", "who-may-write table of TargetsInfo.IdleAt", "at least one store of a time (assignment became empty) and one store of nil (a target was assigned)", fmt.Sprintf("%d set, %d clear", nSet, nClear))
 	}
 	// order in UpdateTargets: rebuild before idle update; both on every path before callbacks/save
 	if up := p.SSAFunc(mUpdate); up != nil && rebuildFn != nil && idleFn != nil {
